@@ -10,10 +10,13 @@
    (3) The HTML stage satisfies the split law in every state and for every pair of chunks as long as the run does not
    end in the stage's error state (C03_html_stage_law), hence C03_chunk_invariance: any filter list, any chunking, every
    body on which no HTML stage ends in error when fed as one chunk.  The error state is entered only when
-   String::from_utf8 fails; that a valid UTF-8 body never triggers it is NOT proved (token boundaries are ASCII bytes);
-   on non-UTF-8 bodies the law is false (C03_law_fails_on_invalid_utf8). *)
+   String::from_utf8 fails; on non-UTF-8 bodies the law is false (C03_law_fails_on_invalid_utf8).
+   (4) On a valid UTF-8 body, with filter values that are valid UTF-8 (they are Rust Strings), no stage ever enters the
+   error state and every stage hands valid UTF-8 to the next one (C03_html_stage_utf8: tokens end just after '>' or just
+   before '<', tag names lie between ASCII bytes — RIO.TokBound, RIO.TokErr, RIO.HtmlUtf8), hence
+   C03_chunk_invariance_utf8: the property for every filter list, every selector oracle, every chunking. *)
 Require Import RIO.Base RIO.TokMonad RIO.HtmlTok RIO.BodyText RIO.HtmlFilter RIO.ChainProofs RIO.BodyProofs.
-Require Import RIO.TokLogic RIO.HtmlTokProofs RIO.TokShift RIO.HtmlSplit.
+Require Import RIO.TokLogic RIO.HtmlTokProofs RIO.TokShift RIO.HtmlSplit RIO.TokBound RIO.TokErr RIO.Utf8 RIO.HtmlUtf8.
 Close Scope N_scope.
 
 (* (1) the chain preserves chunk invariance *)
@@ -94,6 +97,27 @@ Proof. intros lower sel ctok fs c cs LO. exact (body_chunk_invariance lower sel 
 Theorem C03_lower_ok_ascii : lower_ok (map ascii_lower).
 Proof. exact lower_ok_ascii. Qed.
 
+
+(* (4) valid UTF-8 bodies.  [vF F]: the visitor's value and the stage's buffers are valid UTF-8 (true initially). *)
+Theorem C03_html_stage_utf8 : forall lower sel, lower_ok lower -> forall F c,
+  vF F -> utf8_valid (f_last F ++ c) = true ->
+  exists F' out, do_filter lower sel F c = ROk (F', out)
+    /\ vF F' /\ utf8_valid out = true /\ utf8_valid (f_last F') = true.
+Proof. exact do_filter_valid. Qed.
+
+(* the filter values are Rust Strings *)
+Theorem C03_filter_values_utf8_def : forall fs,
+  filter_values_utf8 fs <->
+  (forall f, In f fs -> match f with BFText _ c => utf8_valid c = true | BFHtml h => utf8_valid (hf_value h) = true end).
+Proof. intros fs. reflexivity. Qed.
+
+(* C03: chunk invariance for every valid UTF-8 body, every list of text and HTML filters, every selector oracle and
+   every chunking (incl. empty chunks, cuts inside tags, scripts, comments and multi-byte characters) *)
+Theorem C03_chunk_invariance_utf8 : forall lower sel ctok fs c cs, lower_ok lower ->
+  utf8_valid (concat (c :: cs)) = true -> filter_values_utf8 fs ->
+  body_run lower sel ctok fs (c :: cs) = body_run lower sel ctok fs [concat (c :: cs)].
+Proof. intros lower sel ctok fs c cs LO. exact (body_chunk_invariance_utf8 lower sel LO ctok fs c cs). Qed.
+
 (* The side condition cannot be dropped: on a body that is NOT valid UTF-8 the stage's error path releases the raw
    bytes it holds, so what was already edited in an earlier chunk stays edited, while the single-chunk run returns
    the whole body unedited.  (C03 quantifies over UTF-8 bodies.) *)
@@ -119,3 +143,5 @@ Print Assumptions C03_html_stage_law.
 Print Assumptions C03_html_stage_law_in_error.
 Print Assumptions C03_chunk_invariance.
 Print Assumptions C03_lower_ok_ascii.
+Print Assumptions C03_html_stage_utf8.
+Print Assumptions C03_chunk_invariance_utf8.
